@@ -155,7 +155,15 @@ fn new_instance(limit_ms: u64) -> Koto {
     if limit_ms > 0 {
         s = s.with_execution_limit(Duration::from_millis(limit_ms));
     }
-    Koto::with_settings(s)
+    let k = Koto::with_settings(s);
+    // hook H1 from inside a running script: (registers.len - register_base, call_stack.len,
+    // sequence_builders.len, string_builders.len) of the VM that executes the call
+    k.prelude().add_fn("c07_sizes", |ctx| {
+        let z = ctx.vm.verif_stack_sizes();
+        let n = |x: usize| KValue::Number((x as i64).into());
+        Ok(KValue::Tuple(vec![n(z.0 - z.4), n(z.1), n(z.2), n(z.3)].into()))
+    });
+    k
 }
 
 fn err_text(e: &koto::Error) -> String {
@@ -1236,13 +1244,69 @@ fn gen_native_meta_op(rng: &mut Rng, k: usize, mod_dir: &str) -> Op {
     )
 }
 
+
+// ------------------------------------------------------------------------------------------------
+// completed operations inside a running script leave no bookkeeping behind (bc47dc2: a
+// Koto-implemented arithmetic operator left two registers per call in the calling frame — invisible
+// after the run, because `run` truncates, but visible from inside through `c07_sizes()` and fatal
+// after ~120 iterations). The script measures the VM's stacks before and after N repetitions of an
+// operation in the same frame and returns the differences; expected: all zero, every time.
+
+const STEADY_OPS: &[(&str, &str, &str)] = &[
+    ("koto-arith-overload", "o = {@+: |other| 7, @-: |other| 1, @*: |other| 2}", "x = o + 1 - 2 * 3"),
+    ("koto-arith-assign-overload", "o = {@+=: |other| self}", "o += 1"),
+    ("koto-compare-overload", "o = {@<: |other| true, @==: |other| false}", "x = (o < 1, o >= 1, o == 1, o != 1)"),
+    ("koto-unary-overloads", "o = {@negate: || 1, @size: || 2, @display: || 'd', @index: |i| i, @call: || 3}", "x = (-o, (size o), \"{o}\", o[1], o())"),
+    ("native-meta-keys", "o = {@+: koto.type, @<: koto.type, @display: koto.type}", "x = try\n  (o + 1, \"{o}\")\ncatch e\n  0"),
+    ("function-calls", "f = |a, b = 2, c...| a + b + (size c)", "x = f(1) + f(1, 2) + f(1, 2, 3, 4)"),
+    ("native-callbacks", "l = [3, 1, 2]", "x = (l.fold(0, |a, b| a + b), l.keep(|v| v > 1).to_tuple(), (koto.copy l).sort().first())"),
+    ("generator-iteration", "g = ||\n  yield 1\n  yield 2", "x = g().to_tuple()"),
+    ("literals-and-interpolation", "v = 5", "x = [v, (v, \"{v}-{[v, v]}\"), {a: v}]"),
+    ("caught-throw", "f = || throw 'e'", "x = try\n  f()\ncatch e\n  0"),
+    ("caught-error-in-literal", "f = || throw 'e'", "x = try\n  [1, \"a{f()}\"]\ncatch e\n  0"),
+    ("caught-error-in-native-callback", "f = |a, b| throw 'e'", "x = try\n  [1, 2].fold 0, f\ncatch e\n  0"),
+    ("caught-error-in-overload", "o = {@+: |other| throw 'e', @<: |other| throw 'e', @display: || throw 'e'}", "x = try\n  o + 1\ncatch e\n  try\n    o < 1\n  catch e2\n    try\n      \"{o}\"\n    catch e3\n      0"),
+    ("caught-failed-type-hint", "f = || 1", "x = try\n  let y: String = f()\ncatch e\n  0"),
+    ("caught-failing-native", "f = || 1", "x = try\n  number.abs 'x'\ncatch e\n  0"),
+    ("cached-import", "import c07_ok", "x = c07_ok.twice c07_ok.value"),
+    ("caught-failing-import", "f = || 1", "x = try\n  import c07_bad_throw\ncatch e\n  0"),
+];
+
+fn gen_steady_op(rng: &mut Rng, k: usize) -> Op {
+    let (name, defs, body) = STEADY_OPS[rng.below(STEADY_OPS.len())];
+    let n = *rng.pick(&[1usize, 3, 10, 50, 150, 300]);
+    let nested = rng.chance(1, 3);
+    let body_i = indent(body, 2);
+    let text = if nested {
+        // the same inside a function called from a native callback
+        format!("{defs}\nrunit = |d|\n  a = c07_sizes()\n  for i in 0..{n}\n{}\n  b = c07_sizes()\n  (b[0] - a[0], b[1] - a[1], b[2] - a[2], b[3] - a[3])\n[0].fold (0, 0, 0, 0), |acc, d| runit d\n", indent(&body_i, 2))
+    } else {
+        format!("{defs}\na_{k} = c07_sizes()\nfor i in 0..{n}\n{body_i}\nb_{k} = c07_sizes()\n(b_{k}[0] - a_{k}[0], b_{k}[1] - a_{k}[1], b_{k}[2] - a_{k}[2], b_{k}[3] - a_{k}[3])\n")
+    };
+    Op {
+        kind: OpKind::Run,
+        text,
+        ref_text: None,
+        args: vec![],
+        events: "enter:0:0:k0 nf:8 cn:3 nr:1 call:3:1 nf:3 ret cn:3 nr:1 ret".into(),
+        runs_tests: true,
+        expect: "ok".into(),
+        err_contains: None,
+        ok_value: Some("ok:(t i0 i0 i0 i0)".into()),
+        residue_class: String::new(),
+        adds_tests: 0,
+        gen_check: None,
+        tags: vec!["steady-state-inside-run".into(), format!("steady={name}"), format!("iterations={n}"), format!("nested={nested}")],
+    }
+}
+
 fn gen_history(rng: &mut Rng, mod_dir: &str, max_native_err: usize) -> History {
     let n = 5 + rng.below(36);
     let mut ops = vec![setup_op()];
     let mut native_err = 0;
     let mut live: Vec<LiveGen> = vec![];
     for k in 1..=n {
-        let op = match rng.weighted(&[42, 20, 7, 7, if live.is_empty() { 0 } else { 7 }, 5, 7, 7]) {
+        let op = match rng.weighted(&[38, 18, 7, 7, if live.is_empty() { 0 } else { 7 }, 5, 7, 7, 8]) {
             0 => gen_run_op(rng, k, true),
             1 => gen_call_op(rng, k),
             2 => gen_tostring_op(rng, k),
@@ -1260,7 +1324,8 @@ fn gen_history(rng: &mut Rng, mod_dir: &str, max_native_err: usize) -> History {
             }
             5 => gen_recover_op(rng, k),
             6 => gen_bigcall_op(rng, mod_dir),
-            _ => gen_native_meta_op(rng, k, mod_dir),
+            7 => gen_native_meta_op(rng, k, mod_dir),
+            _ => gen_steady_op(rng, k),
         };
         // generation filter (F-C07-1): keep the accumulated register residue far from the u8 wrap
         // (only relevant while F-C07-1 is open; `max_native_err` is usize::MAX once it is fixed)
@@ -1874,6 +1939,250 @@ fn witness_f3() -> (bool, String) {
     (a.0 != 0 || b.0 != 0, format!("registers.len after run_binary_op(Add, 1, 'x') = {}, after a second failing run_binary_op(Add, o, 1) with a throwing @+ = {}", a.0, b.0))
 }
 
+
+// ------------------------------------------------------------------------------------------------
+// the REPL (crates/cli/src/repl.rs): one runtime kept alive across failing evaluations, plus the
+// REPL's own per-entry state (continued lines, indent). Driven through a pty (the REPL only starts
+// on a terminal). Oracle: a second REPL session that is given only the completed effects of the
+// failing entries; every other entry must produce the same output and leave the same prompt.
+
+const REPL_DRIVER_PY: &str = r#"
+import fcntl, json, os, pty, re, select, struct, sys, termios, time
+ANSI = re.compile(r"\x1b\[[0-9;?]*[A-Za-z]|\x1b[=>]")
+PROMPTS = ("» ", "… ")
+binary, home, session = sys.argv[1], sys.argv[2], json.load(open(sys.argv[3]))
+pid, fd = pty.fork()
+if pid == 0:
+    os.environ["HOME"] = home
+    os.environ["TERM"] = "xterm"
+    os.execv(binary, [binary])
+fcntl.ioctl(fd, termios.TIOCSWINSZ, struct.pack("HHHH", 50, 200, 0, 0))
+buf = ""
+def read_until_prompt(timeout=20.0):
+    global buf
+    start = len(buf); deadline = time.time() + timeout; quiet = None
+    while time.time() < deadline:
+        r, _, _ = select.select([fd], [], [], 0.03)
+        if r:
+            try: data = os.read(fd, 65536)
+            except OSError: break
+            if not data: break
+            buf += data.decode("utf-8", "replace"); quiet = None; continue
+        text = ANSI.sub("", buf[start:]).replace("\r", "")
+        last = text.rsplit("\n", 1)[-1]
+        if last.startswith(PROMPTS):
+            quiet = quiet or time.time()
+            if time.time() - quiet > 0.12: break
+    text = ANSI.sub("", buf[start:]).replace("\r", "")
+    last = text.rsplit("\n", 1)[-1]
+    return text, ("main" if last.startswith(PROMPTS[0]) else "continued" if last.startswith(PROMPTS[1]) else "none")
+read_until_prompt()
+out = []
+for entry in session:
+    texts = []; prompt = "none"
+    for line in entry["lines"]:
+        os.write(fd, line.encode() + b"\r")
+        t, prompt = read_until_prompt()
+        texts.append(t)
+    # keep what the REPL printed (results and errors), drop the echoed input and the prompts
+    printed = []
+    for t in texts:
+        for l in t.split("\n"):
+            l = l.strip()
+            if l and not l.startswith(PROMPTS) :
+                printed.append(l)
+    out.append({"id": entry["id"], "printed": printed, "prompt": prompt})
+try:
+    os.write(fd, b"\x04"); time.sleep(0.1); os.close(fd)
+except OSError: pass
+try: os.waitpid(pid, 0)
+except OSError: pass
+print(json.dumps(out))
+"#;
+
+#[derive(Clone, Debug, Serialize, Deserialize)]
+struct ReplEntry {
+    id: usize,
+    /// lines typed into the live session (continuation lines without indentation: the REPL indents)
+    lines: Vec<String>,
+    /// lines typed into the reference session (None: the entry is left out — it failed without effects)
+    ref_lines: Option<Vec<String>>,
+    /// the entry's output is compared between the two sessions
+    compare: bool,
+    tag: String,
+}
+
+fn gen_repl_session(rng: &mut Rng) -> Vec<ReplEntry> {
+    let mut es: Vec<ReplEntry> = vec![];
+    let mut vars: Vec<String> = vec![];
+    let n = 6 + rng.below(7);
+    for id in 0..n {
+        let k = id + 1;
+        let same = |lines: Vec<String>, tag: &str| ReplEntry { id, ref_lines: Some(lines.clone()), lines, compare: true, tag: tag.into() };
+        let e = match rng.weighted(&[3, 3, 2, 5, 2, 1, if vars.is_empty() { 0 } else { 5 }]) {
+            0 => {
+                vars.push(format!("x{k}"));
+                same(vec![format!("x{k} = {k}")], "single-ok")
+            }
+            1 => ReplEntry {
+                id,
+                lines: vec![rng.pick(&["throw 'boom'", "1 + null", "[1, 2][9]", "assert false", "let z: String = 1"]).to_string()],
+                ref_lines: None,
+                compare: false,
+                tag: "single-runtime-error".into(),
+            },
+            2 => {
+                vars.push(format!("y{k}"));
+                same(vec!["if true".into(), format!("y{k} = {k}0"), format!("y{k} + 1"), String::new()], "multi-ok")
+            }
+            3 => {
+                // a multi-line entry that fails at runtime after a completed effect
+                vars.push(format!("e{k}"));
+                let fail = rng.pick(&["throw 'boom'", "1 + null", "[1, 2][9]", "assert false", "let z: String = 1", "[1, \"{[][3]}\"]", "import no_such_module_c07"]).to_string();
+                ReplEntry {
+                    id,
+                    lines: vec!["if true".into(), format!("e{k} = {k}00"), fail, String::new()],
+                    ref_lines: Some(vec![format!("e{k} = {k}00")]),
+                    compare: false,
+                    tag: "multi-runtime-error".into(),
+                }
+            }
+            4 => ReplEntry {
+                id,
+                lines: vec!["f = ||".into(), "x = = 1".into(), String::new()],
+                ref_lines: None,
+                compare: false,
+                tag: "multi-compile-error".into(),
+            },
+            5 => ReplEntry { id, lines: vec!["x = )".into(), String::new()], ref_lines: None, compare: false, tag: "compile-error-after-continuation".into() },
+            _ => {
+                let v = rng.pick(&vars).clone();
+                same(vec![format!("{v} + 41")], "probe")
+            }
+        };
+        es.push(e);
+    }
+    // always end with probes of everything defined
+    let mut id = es.len();
+    for v in vars.iter().take(3) {
+        es.push(ReplEntry { id, lines: vec![format!("{v} + 41")], ref_lines: Some(vec![format!("{v} + 41")]), compare: true, tag: "probe".into() });
+        id += 1;
+    }
+    es.push(ReplEntry { id, lines: vec!["1 + 1".into()], ref_lines: Some(vec!["1 + 1".into()]), compare: true, tag: "probe".into() });
+    es
+}
+
+fn repl_binary(rep: &mut Report) -> Option<PathBuf> {
+    let repo = std::env::var("KOTO_REPO").unwrap_or_else(|_| "/repo".into());
+    let tdir = match std::env::var("CARGO_TARGET_DIR_OVERRIDE") {
+        Ok(t) => PathBuf::from(format!("{t}-cli")),
+        Err(_) => std::env::current_dir().unwrap_or_default().join("target-cli"),
+    };
+    let out = std::process::Command::new("cargo")
+        .args(["build", "--offline", "--locked", "-q", "--manifest-path"])
+        .arg(format!("{repo}/Cargo.toml"))
+        .args(["-p", "koto_cli", "--target-dir"])
+        .arg(&tdir)
+        .output();
+    match out {
+        Ok(o) if o.status.success() => Some(tdir.join("debug").join("koto")),
+        Ok(o) => {
+            rep.note(format!("REPL sessions skipped: koto_cli did not build: {}", String::from_utf8_lossy(&o.stderr).chars().rev().take(300).collect::<String>().chars().rev().collect::<String>()));
+            None
+        }
+        Err(e) => {
+            rep.note(format!("REPL sessions skipped: cargo not runnable: {e}"));
+            None
+        }
+    }
+}
+
+fn run_repl_session(bin: &Path, scratch: &Path, entries: &[(usize, Vec<String>)]) -> Result<Vec<Value>, String> {
+    let home = scratch.join("repl-home");
+    let _ = std::fs::create_dir_all(&home);
+    let driver = scratch.join("repl_driver.py");
+    std::fs::write(&driver, REPL_DRIVER_PY).map_err(|e| e.to_string())?;
+    let session = scratch.join("repl_session.json");
+    let js: Vec<Value> = entries.iter().map(|(id, lines)| json!({"id": id, "lines": lines})).collect();
+    std::fs::write(&session, serde_json::to_string(&js).unwrap()).map_err(|e| e.to_string())?;
+    let out = std::process::Command::new("python3").arg(&driver).arg(bin).arg(&home).arg(&session).output().map_err(|e| e.to_string())?;
+    if !out.status.success() {
+        return Err(format!("driver failed: {}", String::from_utf8_lossy(&out.stderr)));
+    }
+    let txt = String::from_utf8_lossy(&out.stdout);
+    let line = txt.lines().last().unwrap_or("");
+    serde_json::from_str::<Vec<Value>>(line).map_err(|e| format!("{e}: {txt}"))
+}
+
+/// returns the first difference (entry id, live, reference)
+fn check_repl_session(bin: &Path, scratch: &Path, es: &[ReplEntry]) -> Result<Option<(usize, Value, Value)>, String> {
+    let live: Vec<(usize, Vec<String>)> = es.iter().map(|e| (e.id, e.lines.clone())).collect();
+    let refs: Vec<(usize, Vec<String>)> = es.iter().filter_map(|e| e.ref_lines.clone().map(|l| (e.id, l))).collect();
+    let lo = run_repl_session(bin, scratch, &live)?;
+    let ro = run_repl_session(bin, scratch, &refs)?;
+    for e in es.iter().filter(|e| e.compare) {
+        let l = lo.iter().find(|v| v["id"] == json!(e.id)).cloned().unwrap_or(Value::Null);
+        let r = ro.iter().find(|v| v["id"] == json!(e.id)).cloned().unwrap_or(Value::Null);
+        if l != r {
+            return Ok(Some((e.id, l, r)));
+        }
+    }
+    // the live session must be back at the main prompt after every complete entry
+    for e in es {
+        let l = lo.iter().find(|v| v["id"] == json!(e.id)).cloned().unwrap_or(Value::Null);
+        if l["prompt"] != json!("main") {
+            return Ok(Some((e.id, l, json!({"expected_prompt": "main"}))));
+        }
+    }
+    Ok(None)
+}
+
+fn repl_checks(cx: &mut Ctx, rng: &mut Rng, scratch: &Path, n_sessions: usize) {
+    let Some(bin) = repl_binary(&mut cx.rep) else { return };
+    for si in 0..n_sessions {
+        let mut r = rng.fork();
+        let es = gen_repl_session(&mut r);
+        for e in &es {
+            cx.rep.case(&format!("repl:{si}:{}:{:?}", e.id, e.lines), true);
+            cx.rep.bump(&format!("repl-entry:{}", e.tag));
+        }
+        match check_repl_session(&bin, scratch, &es) {
+            Err(e) => {
+                cx.rep.note(format!("REPL session {si} could not be driven: {e}"));
+                return;
+            }
+            Ok(None) => {}
+            Ok(Some(_)) => {
+                // shrink: drop entries while a difference persists
+                let mut cur = es.clone();
+                let mut progress = true;
+                while progress {
+                    progress = false;
+                    let mut i = 0;
+                    while i < cur.len() {
+                        let mut cand = cur.clone();
+                        cand.remove(i);
+                        if matches!(check_repl_session(&bin, scratch, &cand), Ok(Some(_))) {
+                            cur = cand;
+                            progress = true;
+                        } else {
+                            i += 1;
+                        }
+                    }
+                }
+                let fin = check_repl_session(&bin, scratch, &cur).ok().flatten();
+                cx.d_fail += 1;
+                cx.rep.violation(
+                    "D",
+                    "C07:repl-entry-differs-from-session-with-completed-effects-only",
+                    json!({"repl_session": cur, "first_difference": fin.map(|(id, l, r)| json!({"entry": id, "live": l, "reference": r})),
+                           "note": "crates/cli/src/repl.rs: after a failed entry the REPL (runtime + its own continued-lines/indent state) must behave like a session that only performed the completed effects"}),
+                );
+            }
+        }
+    }
+}
+
 fn write_modules(dir: &Path) {
     std::fs::create_dir_all(dir).expect("create module dir");
     for (name, src, _) in MODULES {
@@ -1916,6 +2225,77 @@ fn witness_f4() -> (bool, String) {
     let s2 = k.verif_stack_sizes();
     let c = run_script(&mut k, "1 + 1\n", "/nonexistent");
     (s1.1 != 0 || s2.1 != 0, format!("compile_and_run(\"yield 1\") = {a}, sizes {:?}; then a failing run ({b}): sizes {:?}; then 1 + 1 = {c}", s1, s2))
+}
+
+
+/// F-C07-5 witness / check: a module whose import failed, then rewritten on disk, must be read
+/// again by the next import on the same instance (as on a fresh instance); the loader's chunk cache
+/// must not keep the chunk of the failed import. Returns (fails, description).
+fn stale_chunk_check(dir: &Path) -> (bool, String) {
+    let variants: &[(&str, &str)] = &[
+        ("throw", "export x = 1\nthrow 'old-error'\n"),
+        ("failing-test", "export x = 1\n@test t = ||\n  assert false\n"),
+        ("failing-main", "export x = 1\n@main = ||\n  throw 'old-error'\n"),
+    ];
+    let good = "export x = 2\n";
+    let mut fails = false;
+    let mut desc = vec![];
+    let d = dir.display().to_string();
+    for (name, bad) in variants {
+        let m = format!("c07_rewritten_{}", name.replace('-', "_"));
+        let file = dir.join(format!("{m}.koto"));
+        let script = format!("import {m}\n{m}.x\n");
+        let _ = std::fs::write(&file, bad);
+        let mut l = new_instance(0);
+        let first = run_script(&mut l, &script, &d);
+        let _ = std::fs::write(&file, good);
+        let second = run_script(&mut l, &script, &d);
+        let fresh = run_script(&mut new_instance(0), &script, &d);
+        l.clear_module_cache();
+        let third = run_script(&mut l, &script, &d);
+        let _ = std::fs::remove_file(&file);
+        if second != fresh || third != fresh || !first.starts_with("err:") {
+            fails = true;
+        }
+        desc.push(format!("{name}: first import {first}; after rewriting the file: same instance {second}, fresh instance {fresh}, same instance after clear_module_cache {third}"));
+    }
+    (fails, desc.join(" | "))
+}
+
+fn is_subsequence(xs: &[i64], of: &[i64]) -> bool {
+    let mut it = of.iter();
+    xs.iter().all(|x| it.any(|y| y == x))
+}
+
+/// F-C07-6 witness / check: a list after a failed `list.retain` (predicate throws, or returns a
+/// non-Bool) must be explainable by completed effects: a subsequence of the original list that
+/// still contains every element the predicate has not judged yet.
+fn retain_check() -> (bool, String) {
+    let mut fails = false;
+    let mut desc = vec![];
+    for (name, pred_fail) in [("throws", "throw 'pred'"), ("returns-non-bool", "return 7")] {
+        for at in [1i64, 3, 4, 6] {
+            let script = format!("l = [1, 2, 3, 4, 5, 6]\ntry\n  l.retain |x|\n    if x == {at}\n      {pred_fail}\n    x % 2 == 0\ncatch e\n  null\nl\n");
+            let mut k = new_instance(0);
+            let out = run_script(&mut k, &script, "/nonexistent");
+            let vals: Vec<i64> = out
+                .trim_start_matches("ok:(l")
+                .trim_end_matches(')')
+                .split(' ')
+                .filter_map(|t| t.strip_prefix('i').and_then(|n| n.parse().ok()))
+                .collect();
+            let orig = [1i64, 2, 3, 4, 5, 6];
+            let ok = out.starts_with("ok:(l") && is_subsequence(&vals, &orig) && (at..=6).all(|v| vals.contains(&v));
+            if !ok {
+                fails = true;
+                desc.push(format!("predicate {name} at element {at}: list afterwards {out}"));
+            }
+        }
+    }
+    if desc.is_empty() {
+        desc.push("every list after a failed retain is a subsequence of the original that keeps the unjudged elements".into());
+    }
+    (fails, desc.join(" | "))
 }
 
 fn witness_f2() -> (bool, String) {
@@ -2082,6 +2462,17 @@ fn main() {
         cx.run_history(&h, false, "sweep:imports");
     }
 
+    // 1v. steady state inside a run: every operation shape x iteration counts, plain and nested
+    {
+        let mut r = Rng::new(19);
+        let mut ops = vec![setup_op()];
+        for i in 0..(6 * STEADY_OPS.len()) {
+            ops.push(gen_steady_op(&mut r, 1100 + i));
+        }
+        let h = History { ops, limit_ms: 0, mod_dir: mod_dir_s.clone() };
+        cx.run_history(&h, false, "sweep:steady-state-inside-run");
+    }
+
     // 1w. top-level `yield` interleaved with failing runs (F-C07-4 regression shape)
     {
         let mut r = Rng::new(17);
@@ -2244,6 +2635,27 @@ fn main() {
         run_vm_history(&mut cx, ops, "vm:120-failing-operator-calls", f3_open);
     }
 
+    // 3d. REPL sessions (pty)
+    {
+        let n = if args.thorough() { 12 } else { 3 };
+        let mut r = rng.fork();
+        let scratch = mod_dir.clone();
+        repl_checks(&mut cx, &mut r, &scratch, n);
+    }
+
+    // 3e. state outside the VM's stacks: loader chunk cache after a failed import, container state
+    //     after a failed native compound operation. A failure is reported as KNOWN-FINDING while the
+    //     finding is listed as open (below, witness replay), else as a violation.
+    for (id, (fails, what)) in [("F-C07-5", stale_chunk_check(&mod_dir)), ("F-C07-6", retain_check())] {
+        cx.rep.case(&format!("state-check:{id}"), true);
+        cx.rep.bump(&format!("state-check:{id}"));
+        if fails && !open.iter().any(|x| x == id) {
+            cx.d_fail += 1;
+            cx.rep.violation("D", &format!("C07:leftover-state:{id}"), json!({"check": id, "observed": what,
+                "note": "F-C07-5: module rewritten after its import failed must be read again / F-C07-6: list after a failed retain must be a subsequence of the original keeping the unjudged elements"}));
+        }
+    }
+
     // 4. listed findings: replay the witnesses
     for e in cx.rep.known_entries() {
         let id = e.get("id").and_then(|x| x.as_str()).unwrap_or("").to_string();
@@ -2253,6 +2665,8 @@ fn main() {
             "F-C07-2" => witness_f2(),
             "F-C07-3" => witness_f3(),
             "F-C07-4" => witness_f4(),
+            "F-C07-5" => stale_chunk_check(&mod_dir),
+            "F-C07-6" => retain_check(),
             _ => continue,
         };
         let n = cx.attributed.get(&id).copied().unwrap_or(0);
